@@ -181,6 +181,7 @@ def silent_case(res, W, rng, interval, to, phase, silent_from, traffic, tie):
     case = {"kind": "silent", "interval": interval, "timeout": to, "phase": phase, "silent_from_ping": silent_from, "traffic": traffic, "tie": tie}
     cls = "interval<2*timeout" if interval < 2 * to - 1e-9 else "interval>=2*timeout"
     res.case(("silent", interval, to, phase, silent_from, traffic, tie), nontrivial=True)
+    res.count("pings_observed_at_peer", len(run.servers[0].pings) if run and run.servers else 0)
     res.count("silent_peer_runs")
 
     def bad(kind, detail, **kw):
@@ -228,6 +229,7 @@ def responsive_case(res, W, rng, interval, to, phase, latency, traffic, tie):
     run, out, failure, S = execute(plan, dict(ping_interval=interval, ping_timeout=to, ping_payload="ka"), tie, dur + 100)
     case = {"kind": "responsive", "interval": interval, "timeout": to, "phase": phase, "latency": lat, "traffic": traffic, "tie": tie}
     res.case(("responsive", interval, to, phase, latency, traffic, tie), nontrivial=True)
+    res.count("pings_observed_at_peer", len(run.servers[0].pings) if run and run.servers else 0)
     res.count("responsive_peer_runs")
 
     def bad(kind, detail, **kw):
